@@ -51,7 +51,17 @@ func RunVectorSliceOps(c *core.Ctx) {
 		a := t.Choose(cur.n + 1)
 		b := a + t.Choose(cur.n-a+1)
 		var s ad.Vector
-		if pv, site := core.Try(func() { s = cur.v.Slice(a, b) }); pv != nil {
+		magic := false
+		if _, ok := cur.v.(ad.MagicVector); ok && t.Bool(1, 3) {
+			magic = true
+		}
+		if pv, site := core.Try(func() {
+			if magic {
+				s = cur.v.(ad.MagicVector).MagicSlice(a, b).(ad.Vector)
+			} else {
+				s = cur.v.Slice(a, b)
+			}
+		}); pv != nil {
 			fail("no-panic", "Slice|panic|"+core.PanicClass(pv), "Slice(%d,%d) of a dense %s vector of dimension %d panicked in %s: %v", a, b, e.name, cur.n, site, pv)
 		}
 		if s.Dim() != b-a {
@@ -171,6 +181,18 @@ func RunVectorSliceOps(c *core.Ctx) {
 			}},
 			{"Set", true, true, func(v ad.Vector) obs { v.Set(mkVector(e, sa, am)); return obs{} }},
 			{"Reset", true, true, func(v ad.Vector) obs { v.Reset(); return obs{} }},
+			{"ResetDerivatives", true, true, func(v ad.Vector) obs {
+				if mv, ok := v.(ad.MagicVector); ok {
+					mv.ResetDerivatives()
+				}
+				return obs{}
+			}},
+			{"Variables", true, true, func(v ad.Vector) obs {
+				if mv, ok := v.(ad.MagicVector); ok {
+					return obs{err: mv.Variables(1) != nil}
+				}
+				return obs{}
+			}},
 			{"Map", true, true, func(v ad.Vector) obs { v.Map(func(s ad.Scalar) { s.SetFloat64(s.GetFloat64() + 1) }); return obs{} }},
 			{"MapSet", true, true, func(v ad.Vector) obs {
 				v.MapSet(func(s ad.ConstScalar) ad.Scalar { return ad.NewScalar(e.t, e.norm(2*s.GetFloat64())) })
@@ -204,6 +226,31 @@ func RunVectorSliceOps(c *core.Ctx) {
 					ob.cells = append(ob.cells, cellObs{v: float64(it.Index())}, readCell(it.GetConst()))
 				}
 				return ob
+			}},
+			{"IteratorFrom", h.n > 0, false, func(v ad.Vector) obs {
+				ob := obs{kind: "iterfrom-mutable"}
+				for it := v.IteratorFrom(i1); it.Ok(); it.Next() {
+					ob.cells = append(ob.cells, cellObs{v: float64(it.Index())}, readCell(it.Get()))
+				}
+				return ob
+			}},
+			{"MagicIterator", h.n > 0, false, func(v ad.Vector) obs {
+				ob := obs{kind: "magic-iter"}
+				mv, ok := v.(ad.MagicVector)
+				if !ok {
+					return ob
+				}
+				for it := mv.MagicIteratorFrom(i1); it.Ok(); it.Next() {
+					ob.cells = append(ob.cells, cellObs{v: float64(it.Index())}, readCell(it.GetMagic()))
+				}
+				for it := mv.MagicIterator(); it.Ok(); it.Next() {
+					ob.cells = append(ob.cells, cellObs{v: float64(it.Index())}, readCell(it.GetConst()))
+				}
+				ob.cells = append(ob.cells, readCell(mv.MagicAt(i1)))
+				return ob
+			}},
+			{"typed-At", h.n > 0, false, func(v ad.Vector) obs {
+				return obs{kind: "typed-At", str: fmt.Sprint(v.Int8At(i1), v.Int16At(i1), v.Int32At(i1), v.Int64At(i1), v.IntAt(i1), v.Float32At(i1), v.Float64At(i1))}
 			}},
 			{"ConstIteratorFrom", h.n > 0, false, func(v ad.Vector) obs {
 				ob := obs{kind: "iterfrom"}
